@@ -13,6 +13,7 @@ cell; stale cells past a rewound end re-appear).
 import ImmuModel.Store.Proofs.CrashInv
 import ImmuModel.Store.Proofs.CrashValues
 import ImmuModel.Store.RecoverUnlocked
+import ImmuModel.Store.Proofs.IndexInv
 
 namespace ImmuModel.Props.C03
 open ImmuModel.Store.Crash
@@ -195,7 +196,141 @@ theorem acked_values_durable_partial (ha : AllowInit allow) (hr : Reach1 allow s
     ∀ r ∈ s.ackLog, (crashImage s c).vl[r.vpos]? = some true :=
   acked_values_in_image ha hr c
 
+/-! ### recovery of an index (embedded/tbtree `OpenWith`): the walk over the index commit log
+
+`es` = what the walk sees of the commit log, oldest entry first: per entry the synced flag and the outcome of the checksum
+validation of its nodes / history ranges on the crash image.  `walk es` = the number of snapshots kept.  The three theorems
+hold for EVERY list (every crash image, any number of crashes, stale and torn entries included). -/
+
+open ImmuModel.Store.IndexRecover ImmuModel.Store.IndexStore in
+/-- **Fsynced snapshots are never discarded**: a valid entry with the synced flag is kept. -/
+theorem index_walk_keeps_fsynced (es : List Ent) (j : Nat) (e : Ent) (h : es[j]? = some e)
+    (hv : e.valid = true) (hs : e.synced = true) : j < walk es :=
+  (WalkAux.walk_post es).anchorKept j e h hv hs
+
+open ImmuModel.Store.IndexRecover ImmuModel.Store.IndexStore in
+/-- **An invalid snapshot invalidates every newer one**: every kept entry at or above the newest valid fsynced entry is valid
+(the walk keeps a valid PREFIX of that window; below that entry nothing is validated, the data was fsynced before the entry
+was written). -/
+theorem index_walk_kept_valid (es : List Ent) (i : Nat) (e : Ent) (hi : i < walk es) (he : es[i]? = some e)
+    (hno : ∀ j e', i < j → es[j]? = some e' → ¬(e'.valid = true ∧ e'.synced = true)) : e.valid = true :=
+  (WalkAux.walk_post es).valid i e hi he hno
+
+open ImmuModel.Store.IndexRecover ImmuModel.Store.IndexStore in
+/-- **Nothing valid is discarded without need**: the walk keeps the LONGEST valid prefix: the entry right above the kept ones,
+if any, is invalid. -/
+theorem index_walk_maximal (es : List Ent) :
+    walk es ≤ es.length ∧ ∀ e, es[walk es]? = some e → e.valid = false :=
+  ⟨(WalkAux.walk_post es).le, (WalkAux.walk_post es).maximal⟩
+
+open ImmuModel.Store.IndexRecover ImmuModel.Store.IndexStore in
+/-- On every disk image: every kept snapshot at or above the newest valid fsynced one has its own nodes range and its own
+history range on disk with the recorded content. -/
+theorem index_recover_kept_validate (img : IImage) (i : Nat) (e : CEntry) (hi : i < walk (ents img))
+    (he : (trim img.cl)[i]? = some e)
+    (hno : ∀ j e', i < j → (trim img.cl)[j]? = some e' → ¬(entryValid img.nl img.hl e' = true ∧ e'.synced = true)) :
+    entryValid img.nl img.hl e = true := by
+  have := index_walk_kept_valid (ents img) i { synced := e.synced, valid := entryValid img.nl img.hl e } hi
+    (by simp [ents, he])
+    (by
+      intro j e' hij hj
+      simp only [ents, List.getElem?_map] at hj
+      cases hc : (trim img.cl)[j]? with
+      | none => rw [hc] at hj; cases hj
+      | some x =>
+        rw [hc] at hj; cases hj
+        exact hno j x hij hc)
+  exact this
+
+open ImmuModel.Store.IndexRecover ImmuModel.Store.IndexStore in
+/-- **One life of an index directory — partial**: for every state reached by flushes (any mix of fsynced and un-fsynced
+ones, crash in the middle of a flush included) WITHOUT a restart and every crash image (per log any prefix of the un-fsynced
+cells, torn cells), the snapshot `OpenWith` selects is a snapshot of the flush history, the commit log it keeps is a prefix
+of the logical one, and below the ends of the snapshot both data logs hold exactly what they held when it was written: the
+recovered index is the index after a prefix of the flush history and references no lost data.
+FULL statement (false of the current code, witness `index_stale_entry_revalidates`, harness known finding 6
+`C03:recovery:index-inconsistent:stale-commit-entry-revalidated`):
+  `Reach s → selected walk (crashImage s c) = some e → Consistent (crashImage s c) e`
+what is missing: after a recovery that discarded snapshots the commit log holds their entries past its logical end
+(`SetOffset` does not truncate) and an entry is validated only by the checksums of its own ranges: the log would have to be
+truncated, or an entry tied to its predecessor. -/
+theorem index_recover_one_life_partial {s : ISt} (hr : Reach1 s) (c : IChoice) (e : CEntry)
+    (h : selected walk (crashImage s c) = some e) :
+    Consistent (crashImage s c) e ∧
+    ∃ k, s.cl.content[k]? = some e ∧ (trim (crashImage s c).cl).take (k + 1) = s.cl.content.take (k + 1) :=
+  InvAux.first_life (InvAux.inv1_reach hr) c e h
+
+/-- life 1: three un-fsynced snapshots, the second appends history; crash: the history write is lost (snapshot 2 does not
+validate, snapshot 3 — empty history range — does), recovery keeps snapshot 1 and rewinds; life 2: one new snapshot in the
+slot of snapshot 2 -/
+def staleEntryTrace : List (ImmuModel.Store.IndexStore.IStep ⊕ ImmuModel.Store.IndexStore.IChoice) :=
+  ImmuModel.Store.IndexStore.flush [1] [] false ++ ImmuModel.Store.IndexStore.flush [2] [9] false ++
+  ImmuModel.Store.IndexStore.flush [3] [] false ++ [.inr { kn := 3, kh := 0, kc := 3 }] ++
+  ImmuModel.Store.IndexStore.flush [7] [8] false
+
+open ImmuModel.Store.IndexRecover ImmuModel.Store.IndexStore in
+/-- **A stale commit entry validates again** (finding): after the second crash — every written cell survives — the commit log
+reads [snapshot 1, the new snapshot, snapshot 3 of life 1]; all validate, the stale one is the newest and is selected; the
+nodes log below its end is not what it was when it was written, and it is no snapshot of the current flush history. -/
+theorem index_stale_entry_revalidates :
+    ∃ s c e, Reach s ∧ selected walk (crashImage s c) = some e ∧ ¬ Consistent (crashImage s c) e ∧ e ∉ s.cl.content := by
+  refine ⟨((run {} staleEntryTrace).getD {}), { kn := 1, kh := 1, kc := 1 },
+    { synced := false, nFrom := 2, nTo := 3, root := 1, nSum := [3], hFrom := 1, hTo := 1, hSum := [], nAll := [1, 2, 3], hAll := [9] },
+    InvAux.reach_run staleEntryTrace Reach.init (by rfl), by decide, by decide, by decide⟩
+
+/-- life 1: two un-fsynced snapshots; crash: the second commit entry is lost, its node and history cells are not (they stay
+past the rewound ends); life 2: snapshot A (appends history), snapshot B (appends none) -/
+def keepNewestTrace : List (ImmuModel.Store.IndexStore.IStep ⊕ ImmuModel.Store.IndexStore.IChoice) :=
+  ImmuModel.Store.IndexStore.flush [1] [] false ++ ImmuModel.Store.IndexStore.flush [2] [9] false ++
+  [.inr { kn := 2, kh := 1, kc := 1 }] ++
+  ImmuModel.Store.IndexStore.flush [5] [8] false ++ ImmuModel.Store.IndexStore.flush [6] [] false
+
+open ImmuModel.Store.IndexRecover ImmuModel.Store.IndexStore in
+/-- **Keeping the newest valid snapshot above an invalid one references lost data** (seeded change `c03-d`): crash image of
+life 2 in which the history write of A is lost (the stale cell of life 1 is there instead) and everything else survived.
+The walk of the code discards A and B and selects a consistent snapshot; the walk that discards only A selects B, whose
+history log below its end is not what B was written over (`History(k)` reads the stale cell). -/
+theorem index_keep_newest_references_lost_data :
+    ∃ s c e e', Reach s ∧
+      selected walkKeepNewest (crashImage s c) = some e ∧ ¬ Consistent (crashImage s c) e ∧
+      selected walk (crashImage s c) = some e' ∧ Consistent (crashImage s c) e' := by
+  refine ⟨((run {} keepNewestTrace).getD {}), { kn := 2, kh := 0, kc := 2 },
+    { synced := false, nFrom := 2, nTo := 3, root := 1, nSum := [6], hFrom := 1, hTo := 1, hSum := [], nAll := [1, 5, 6], hAll := [8] },
+    { synced := false, nFrom := 0, nTo := 1, root := 1, nSum := [1], hFrom := 0, hTo := 0, hSum := [], nAll := [1], hAll := [] },
+    InvAux.reach_run keepNewestTrace Reach.init (by rfl), by decide, by decide, by decide, by decide⟩
+
+open ImmuModel.Store.IndexRecover ImmuModel.Store.IndexStore in
+/-- **A commit entry torn over a stale entry validates** (finding, harness known finding 5): the slot holds the nodes half of
+the new entry `e` and the history half of the stale entry `o`; when the new nodes are on disk and the history log still
+holds what `o` recorded, the entry passes `OpenWith`'s validation although it was never written. -/
+theorem index_spliced_entry_validates (nl hl : List Nat) (e o : CEntry)
+    (hok : e.ok = true) (hf : e.fieldsOK = true) (hh : e.hFrom ≤ o.hTo)
+    (hn : rangeOK nl e.nFrom e.nTo e.nSum = true) (ho : rangeOK hl e.hFrom o.hTo o.hSum = true) :
+    entryValid nl hl (splice e o) = true := by
+  unfold CEntry.fieldsOK at hf
+  simp only [Bool.and_eq_true, decide_eq_true_eq] at hf
+  simp [entryValid, splice, CEntry.fieldsOK, hok, hf.1.1.1, hf.1.1.2, hf.1.2, hh, hn, ho]
+
 /-! ### non-vacuity -/
+
+/-- one life: an fsynced snapshot, then two un-fsynced ones (the first of them appends history) -/
+def oneLifeTrace : List ImmuModel.Store.IndexStore.IStep :=
+  [.write [1] [] true, .syncData, .entry, .syncEntry, .write [2] [9] false, .entry, .write [3] [] false, .entry]
+
+open ImmuModel.Store.IndexRecover ImmuModel.Store.IndexStore in
+/-- a crash image of that life that keeps both un-fsynced commit entries and loses the node cell of the last snapshot:
+recovery selects the second snapshot (hypotheses of `index_recover_one_life_partial` are satisfiable) -/
+example : ∃ s c e, Reach1 s ∧ selected walk (crashImage s c) = some e ∧ e.nTo = 2 ∧
+    s.cl.durable.length = 1 ∧ s.cl.volatile.length = 2 :=
+  ⟨((run {} (oneLifeTrace.map Sum.inl)).getD {}), { kn := 1, kh := 1, kc := 2 },
+    { synced := false, nFrom := 1, nTo := 2, root := 1, nSum := [2], hFrom := 0, hTo := 1, hSum := [9], nAll := [1, 2], hAll := [9] },
+    InvAux.reach1_run oneLifeTrace Reach1.init (by rfl), by decide, by decide, by decide, by decide⟩
+
+open ImmuModel.Store.IndexRecover ImmuModel.Store.IndexStore in
+/-- the walk on [fsynced valid, valid, invalid, valid]: the second entry is kept, the fourth is discarded with the third;
+the variant of the seeded change keeps the fourth -/
+example : walk [⟨true, true⟩, ⟨false, true⟩, ⟨false, false⟩, ⟨false, true⟩] = 2 ∧
+    walkKeepNewest [⟨true, true⟩, ⟨false, true⟩, ⟨false, false⟩, ⟨false, true⟩] = 4 := by decide
 
 def backlogTrace : List Step :=
   [.valAppend, .txAppend 1, .valAppend, .txAppend 2, .allowUpto 1,
